@@ -4,8 +4,8 @@
    parameters, binding (data, fs handed over by add_algorithms), result, modes.  A result is the uninterpreted term
    [Run cls params data fs].  [step s o = (exception or none, state after)].  [exec h s] = state after the call history h. *)
 From Coq Require Import String List Arith Bool Lia.
-From PyOMA.Model Require Import M_orch.
-From PyOMA.Proofs Require Import P_orch.
+From PyOMA.Model Require Import M_orch M_orch2.
+From PyOMA.Proofs Require Import P_orch P_orch2 P_orch12.
 Import ListNotations.
 
 (* ---- gates: an exception, and nothing at all is stored (the whole setup, run parameters included, is unchanged) *)
@@ -132,6 +132,202 @@ Theorem C15_state_of_extracted : forall x,
   state_of x = Extracted <-> (exists r, a_result x = Some r) /\ (exists m, a_mpe x = Some m).
 Proof. exact state_of_extracted. Qed.
 
+(* ================================================================================================================
+   The instance machine (Model/M_orch2.v): algorithm INSTANCES the caller keeps a handle on, a dict name -> instance
+   (BaseSetup as inherited by SingleSetup and MultiSetup_PreGER), set_run_params, add_algorithms on one or several
+   instances (the same one again, two with one name), rollback.  [mstep s o = (exception or none, state after)],
+   [mexec h s] = state after the call history h, [new_mstate d f heap] = a new setup around instances constructed before. *)
+
+(* ---- gates: an exception, and the whole state - every instance, the dict, the data - is as before *)
+Theorem C15_inst_gate_run : forall s a i x, dlookup a (m_dict s) = Some i -> nth_error (m_heap s) i = Some x ->
+  (i_data x = None \/ i_fs x = None \/ i_params x = None) -> mstep s (MRun a) = (Some ValueE, s).
+Proof. exact mgate_run. Qed.
+
+Theorem C15_inst_gate_run_unknown : forall s a, dlookup a (m_dict s) = None -> mstep s (MRun a) = (Some KeyE, s).
+Proof. exact mgate_run_unknown. Qed.
+
+Theorem C15_inst_run_ok_iff : forall s a, fst (mstep s (MRun a)) = None <->
+  exists i x p d f, dlookup a (m_dict s) = Some i /\ nth_error (m_heap s) i = Some x /\
+                    i_params x = Some p /\ i_data x = Some d /\ i_fs x = Some f.
+Proof. exact mrun_ok_iff. Qed.
+
+Theorem C15_inst_gate_mpe : forall s a i x args, dlookup a (m_dict s) = Some i -> nth_error (m_heap s) i = Some x ->
+  i_result x = None -> mstep s (MMpe a args) = (Some ValueE, s).
+Proof. exact mgate_mpe. Qed.
+
+(* after ANY history without run_by_name(a) / run_all on instances constructed beforehand - whatever was added, re-added,
+   given new parameters, rolled back - mpe(a) raises and leaves the state alone *)
+Theorem C15_inst_gate_mpe_history : forall d0 f0 heap h a args, (forall j y, nth_error heap j = Some y -> fresh_inst y) ->
+  (forall o, In o h -> is_mrun o a = false) ->
+  let s := mexec h (new_mstate d0 f0 heap) in
+  mstep s (MMpe a args) = (Some (match dlookup a (m_dict s) with None => KeyE | Some _ => ValueE end), s).
+Proof. exact mnever_run_mpe_gated. Qed.
+
+Theorem C15_inst_never_run_no_result : forall d0 f0 heap h i x, (forall j y, nth_error heap j = Some y -> fresh_inst y) ->
+  nth_error heap i = Some x -> (forall o, In o h -> is_mrun o (i_name x) = false) ->
+  exists x', nth_error (m_heap (mexec h (new_mstate d0 f0 heap))) i = Some x' /\ i_result x' = None /\ ident_of x' = ident_of x.
+Proof. exact mnever_run_no_result. Qed.
+
+(* every call but run_all and add_algorithms is atomic ... *)
+Theorem C15_inst_exception_stores_nothing : forall s o, o <> MRunAll -> (forall l, o <> MAdd l) ->
+  fst (mstep s o) <> None -> snd (mstep s o) = s.
+Proof. exact merr_unchanged. Qed.
+
+(* ... add_algorithms that raises (a setup whose fs is None) has stored no parameter, result or mode and has not touched the
+   dict: _set_data overwrote data and fs of the FIRST instance handed over, nothing else ... *)
+Theorem C15_inst_add_exception : forall s l e, fst (mstep s (MAdd l)) = Some e ->
+  m_dict (snd (mstep s (MAdd l))) = m_dict s /\ m_data (snd (mstep s (MAdd l))) = m_data s /\ m_fs (snd (mstep s (MAdd l))) = m_fs s /\
+  (forall j, option_map stored_of (nth_error (m_heap (snd (mstep s (MAdd l)))) j) = option_map stored_of (nth_error (m_heap s) j)) /\
+  (forall j, j <> hd 0 l -> nth_error (m_heap (snd (mstep s (MAdd l)))) j = nth_error (m_heap s) j) /\
+  (e = NameE /\ snd (mstep s (MAdd l)) = s \/ e = TypeE /\ m_fs s = None).
+Proof. exact madd_exception. Qed.
+
+(* ... and run_all that raises has run exactly the dict entries before the failing one *)
+Theorem C15_inst_run_all_exception : forall s e, fst (mstep s MRunAll) = Some e ->
+  exists pre n i post, m_dict s = pre ++ (n,i) :: post /\
+    run_entries pre (m_heap s) = (None, m_heap (snd (mstep s MRunAll))) /\
+    snd (mstep s MRunAll) = set_heap s (m_heap (snd (mstep s MRunAll))) /\
+    (nth_error (m_heap (snd (mstep s MRunAll))) i = None /\ e = KeyE \/
+     exists x, nth_error (m_heap (snd (mstep s MRunAll))) i = Some x /\ run_inst x = inl e /\ e = ValueE /\
+               (i_data x = None \/ i_fs x = None \/ i_params x = None)).
+Proof. exact mrun_all_exception. Qed.
+
+(* ---- the result is a function of the instance's own inputs AT ITS LATEST RUN, over every history: after any history h1, a
+   successful run_by_name(a) and any h2 without a run of that name (set_run_params on this very instance, adding it again,
+   a namesake taking its dict entry, other algorithms running, mpe, preprocessing, rollback, save/load) the instance holds
+   Run of its class and of the parameters, data and fs it had when run_by_name(a) was called *)
+Theorem C15_inst_result_is_latest_run : forall h1 a h2 s0 i x p d f, wf_m s0 ->
+  dlookup a (m_dict (mexec h1 s0)) = Some i -> nth_error (m_heap (mexec h1 s0)) i = Some x ->
+  i_params x = Some p -> i_data x = Some d -> i_fs x = Some f ->
+  (forall o, In o h2 -> is_mrun o a = false) ->
+  exists x', nth_error (m_heap (mexec (h1 ++ MRun a :: h2) s0)) i = Some x' /\
+             i_result x' = Some (Run (i_cls x) p d f) /\ ident_of x' = ident_of x.
+Proof. exact mresult_is_latest_run. Qed.
+
+Theorem C15_inst_result_is_latest_run_all : forall h1 h2 s0 n i, wf_m s0 ->
+  fst (mstep (mexec h1 s0) MRunAll) = None -> In (n,i) (m_dict (mexec h1 s0)) ->
+  (forall o, In o h2 -> is_mrun o n = false) ->
+  exists x p d f x', nth_error (m_heap (mexec h1 s0)) i = Some x /\ i_params x = Some p /\ i_data x = Some d /\ i_fs x = Some f /\
+    nth_error (m_heap (mexec (h1 ++ MRunAll :: h2) s0)) i = Some x' /\ i_result x' = Some (Run (i_cls x) p d f).
+Proof. exact mresult_is_latest_run_all. Qed.
+
+Theorem C15_inst_reachable_wf : forall d0 f0 heap h, (forall j y, nth_error heap j = Some y -> fresh_inst y) ->
+  wf_m (mexec h (new_mstate d0 f0 heap)).
+Proof. intros d0 f0 heap h H. exact (mexec_wf h _ (wf_mnew d0 f0 heap H)). Qed.
+
+(* ---- set_run_params: the parameters of that instance and nothing else anywhere; a later run uses them *)
+Theorem C15_inst_set_params : forall s i x p, nth_error (m_heap s) i = Some x ->
+  mstep s (MSet i p) = (None, set_heap s (set_nth i (set_params p x) (m_heap s))).
+Proof. exact mset_spec. Qed.
+
+Theorem C15_inst_set_then_run : forall s i x a p d f, wf_m s -> dlookup a (m_dict s) = Some i -> nth_error (m_heap s) i = Some x ->
+  i_data x = Some d -> i_fs x = Some f ->
+  exists x', nth_error (m_heap (mexec [MSet i p; MRun a] s)) i = Some x' /\ i_result x' = Some (Run (i_cls x) p d f) /\
+             i_params x' = Some p.
+Proof. exact mset_then_run. Qed.
+
+(* ---- what each kind of call can change, for EVERY instance: only a run changes a result (add_algorithms and
+   set_run_params keep an earlier one), only set_run_params changes parameters, only add_algorithms changes data / fs / dt,
+   name and class never change *)
+Theorem C15_inst_result_kept : forall s o j, o <> MRunAll -> (forall a, o <> MRun a) ->
+  option_map i_result (nth_error (m_heap (snd (mstep s o))) j) = option_map i_result (nth_error (m_heap s) j).
+Proof. exact mstep_keeps_result. Qed.
+
+Theorem C15_inst_modes_kept : forall s o j, o <> MRunAll -> (forall a, o <> MRun a) -> (forall a args, o <> MMpe a args) ->
+  option_map i_modes (nth_error (m_heap (snd (mstep s o))) j) = option_map i_modes (nth_error (m_heap s) j).
+Proof. exact mstep_keeps_modes. Qed.
+
+Theorem C15_inst_params_frame : forall s o j, (forall i p, o <> MSet i p) ->
+  option_map i_params (nth_error (m_heap (snd (mstep s o))) j) = option_map i_params (nth_error (m_heap s) j).
+Proof. exact mstep_keeps_params. Qed.
+
+Theorem C15_inst_binding_frame : forall s o j, (forall l, o <> MAdd l) ->
+  option_map binding3 (nth_error (m_heap (snd (mstep s o))) j) = option_map binding3 (nth_error (m_heap s) j).
+Proof. exact mstep_keeps_binding. Qed.
+
+Theorem C15_inst_identity : forall s o j,
+  option_map ident_of (nth_error (m_heap (snd (mstep s o))) j) = option_map ident_of (nth_error (m_heap s) j).
+Proof. exact mstep_ident. Qed.
+
+(* ---- isolation: an instance the call cannot reach (names are resolved through the dict) is untouched in every field *)
+Theorem C15_inst_frame : forall s o i, touches s o i = false -> nth_error (m_heap (snd (mstep s o))) i = nth_error (m_heap s) i.
+Proof. exact mframe. Qed.
+
+Theorem C15_inst_frame_data : forall s o, (forall d f, o <> MRebind d f) -> o <> MRollback ->
+  m_data (snd (mstep s o)) = m_data s /\ m_fs (snd (mstep s o)) = m_fs s.
+Proof. exact mframe_data. Qed.
+
+Theorem C15_inst_frame_dict : forall s o, (forall l, o <> MAdd l) -> o <> MRollback -> m_dict (snd (mstep s o)) = m_dict s.
+Proof. exact mframe_dict. Qed.
+
+(* ---- add_algorithms: one instance; several = one after the other; the same one again; a namesake *)
+Theorem C15_inst_add_one : forall s i x f, m_fs s = Some f -> nth_error (m_heap s) i = Some x ->
+  mstep s (MAdd [i]) = (None, mkM (m_data s) (m_fs s) (m_init s) (set_nth i (bind_full (m_data s) f x) (m_heap s))
+                                  (dupsert (i_name x) i (m_dict s))).
+Proof. exact madd_one_spec. Qed.
+
+Theorem C15_inst_add_list : forall s i t f, m_fs s = Some f -> forallb (fun j => Nat.ltb j (length (m_heap s))) (i::t) = true ->
+  snd (mstep s (MAdd (i::t))) = snd (mstep (snd (mstep s (MAdd [i]))) (MAdd t)) /\ fst (mstep s (MAdd (i::t))) = None.
+Proof. exact madd_cons. Qed.
+
+Theorem C15_inst_add_same_again : forall s i x f, wf_m s -> m_fs s = Some f -> nth_error (m_heap s) i = Some x ->
+  dlookup (i_name x) (m_dict s) = Some i ->
+  let s' := snd (mstep s (MAdd [i])) in
+  nth_error (m_heap s') i = Some (bind_full (m_data s) f x) /\ map fst (m_dict s') = map fst (m_dict s) /\
+  dlookup (i_name x) (m_dict s') = Some i /\ (forall j, j <> i -> nth_error (m_heap s') j = nth_error (m_heap s) j).
+Proof. exact madd_same_again. Qed.
+
+Theorem C15_inst_add_namesake : forall s i j y f, wf_m s -> m_fs s = Some f -> nth_error (m_heap s) j = Some y ->
+  dlookup (i_name y) (m_dict s) = Some i -> i <> j ->
+  let s' := snd (mstep s (MAdd [j])) in
+  dlookup (i_name y) (m_dict s') = Some j /\ map fst (m_dict s') = map fst (m_dict s) /\
+  nth_error (m_heap s') i = nth_error (m_heap s) i /\ (forall n, ~ In (n,i) (m_dict s')).
+Proof. exact madd_namesake. Qed.
+
+Theorem C15_inst_orphan_untouched : forall s o i, (forall n, ~ In (n,i) (m_dict s)) ->
+  (forall l, o = MAdd l -> existsb (Nat.eqb i) l = false) -> (forall p, o <> MSet i p) ->
+  nth_error (m_heap (snd (mstep s o))) i = nth_error (m_heap s) i.
+Proof. exact orphan_untouched. Qed.
+
+(* ---- re-runs, run_all as a fold, persistence, rollback *)
+Theorem C15_inst_idempotent_rerun : forall s a, fst (mstep s (MRun a)) = None ->
+  mstep (snd (mstep s (MRun a))) (MRun a) = (None, snd (mstep s (MRun a))).
+Proof. exact midempotent_rerun. Qed.
+
+Theorem C15_inst_idempotent_run_all : forall s, fst (mstep s MRunAll) = None ->
+  mstep (snd (mstep s MRunAll)) MRunAll = (None, snd (mstep s MRunAll)).
+Proof. exact midempotent_run_all. Qed.
+
+Theorem C15_inst_run_all_is_fold_reachable : forall d0 f0 heap h, (forall j y, nth_error heap j = Some y -> fresh_inst y) ->
+  let s := mexec h (new_mstate d0 f0 heap) in mstep s MRunAll = mrun_names s (map fst (m_dict s)).
+Proof. exact mrun_all_is_fold_reachable. Qed.
+
+Theorem C15_inst_saveload_anywhere : forall h1 h2 s, mstep s MSaveLoad = (None, s) /\ mexec (h1 ++ MSaveLoad :: h2) s = mexec (h1 ++ h2) s.
+Proof. intros h1 h2 s. split; [exact (msaveload_id s)|exact (msaveload_anywhere h1 h2 s)]. Qed.
+
+Theorem C15_inst_rollback : forall s a,
+  mstep s MRollback = (None, mkM (Some (fst (m_init s))) (Some (snd (m_init s))) (m_init s) (m_heap s) []) /\
+  mstep (snd (mstep s MRollback)) (MRun a) = (Some KeyE, snd (mstep s MRollback)).
+Proof. intros s a. split; [exact (mrollback_spec s)|exact (mrollback_forgets s a)]. Qed.
+
+(* ---- the two machines agree: every history of the first machine (add = a fresh instance) on a new setup IS a history of the
+   instance machine on a new setup around the instances its adds construct ([compile]: the k-th add becomes MAdd [k]) - same
+   exceptions call by call, same final state seen through the dict ([abs]); so every theorem above about [exec] speaks about
+   the instance machine on such histories, and one call corresponds to one call from every well-formed state *)
+Theorem C15_first_machine_embeds : forall d0 f0 h,
+  exec h (new_setup d0 f0) = abs (mexec (fst (compile 0 h)) (new_mstate d0 f0 (snd (compile 0 h)))) /\
+  trace h (new_setup d0 f0) = map abs_err (mtrace (fst (compile 0 h)) (new_mstate d0 f0 (snd (compile 0 h)))).
+Proof. exact first_machine_embeds. Qed.
+
+Theorem C15_machines_step : forall s o o1, wf_m s -> op_of o = Some o1 ->
+  step (abs s) o1 = (abs_err (fst (mstep s o)), abs (snd (mstep s o))).
+Proof. exact sim_step. Qed.
+
+Theorem C15_machines_add : forall s i x, wf_m s -> nth_error (m_heap s) i = Some x -> ~ In i (map snd (m_dict s)) ->
+  i_result x = None -> i_modes x = None ->
+  step (abs s) (Add (i_name x) (i_cls x) (i_params x)) = (abs_err (fst (mstep s (MAdd [i]))), abs (snd (mstep s (MAdd [i])))).
+Proof. exact sim_add. Qed.
+
 Print Assumptions C15_gate_run.
 Print Assumptions C15_gate_run_unknown.
 Print Assumptions C15_run_ok_iff.
@@ -157,6 +353,41 @@ Print Assumptions C15_saveload_anywhere.
 Print Assumptions C15_poser_ok_iff.
 Print Assumptions C15_poser_counts_name_entries.
 Print Assumptions C15_state_of_extracted.
+Print Assumptions C15_inst_gate_run.
+Print Assumptions C15_inst_gate_run_unknown.
+Print Assumptions C15_inst_run_ok_iff.
+Print Assumptions C15_inst_gate_mpe.
+Print Assumptions C15_inst_gate_mpe_history.
+Print Assumptions C15_inst_never_run_no_result.
+Print Assumptions C15_inst_exception_stores_nothing.
+Print Assumptions C15_inst_add_exception.
+Print Assumptions C15_inst_run_all_exception.
+Print Assumptions C15_inst_result_is_latest_run.
+Print Assumptions C15_inst_result_is_latest_run_all.
+Print Assumptions C15_inst_reachable_wf.
+Print Assumptions C15_inst_set_params.
+Print Assumptions C15_inst_set_then_run.
+Print Assumptions C15_inst_result_kept.
+Print Assumptions C15_inst_modes_kept.
+Print Assumptions C15_inst_params_frame.
+Print Assumptions C15_inst_binding_frame.
+Print Assumptions C15_inst_identity.
+Print Assumptions C15_inst_frame.
+Print Assumptions C15_inst_frame_data.
+Print Assumptions C15_inst_frame_dict.
+Print Assumptions C15_inst_add_one.
+Print Assumptions C15_inst_add_list.
+Print Assumptions C15_inst_add_same_again.
+Print Assumptions C15_inst_add_namesake.
+Print Assumptions C15_inst_orphan_untouched.
+Print Assumptions C15_inst_idempotent_rerun.
+Print Assumptions C15_inst_idempotent_run_all.
+Print Assumptions C15_inst_run_all_is_fold_reachable.
+Print Assumptions C15_inst_saveload_anywhere.
+Print Assumptions C15_inst_rollback.
+Print Assumptions C15_first_machine_embeds.
+Print Assumptions C15_machines_step.
+Print Assumptions C15_machines_add.
 
 (* non-vacuity.  Classes 1, 2; parameters 7, 8; data 10 (fs 50), replaced by data 11 (fs 25) by a preprocessing call.
    a=0 is added and run on the old data, b=1 is added after the rebinding: each result is Run of its OWN inputs;
@@ -187,3 +418,31 @@ Example C15_example_poser :
   poser_check [ok; ok] [7;7;8] = Some 4 /\      (* two distinct names but three entries *)
   poser_check [ok; ok] [7;8;7;8] = Some 4.
 Proof. vm_compute. repeat split; reflexivity. Qed.
+
+(* the instance machine.  Instances 0 and 1 share the name 0 (classes 1 and 4), instance 2 (name 1, class 2) is built without
+   parameters.  run_all gates at instance 2 until set_run_params gives it parameters 21; it then runs on data 0 / fs 16, is given
+   parameters 20 and re-bound to data 3 / fs 8 by a second add: the RESULT stays Run 2 21 0 16 while the modes are extracted
+   under the new parameters and dt.  Instance 1 takes the dict entry of its namesake 0, which keeps its result Run 1 10 0 16 and
+   is later given parameters 11 through the caller's handle; after rollback the name is unknown; one add_algorithms call with both
+   namesakes leaves the last one in the dict. *)
+Example C15_example_instances :
+  let heap := [new_inst 0 1 (Some 10); new_inst 0 4 (Some 41); new_inst 1 2 None] in
+  let h := [MAdd [0;2]; MRunAll; MSet 2 21; MRunAll; MMpe 1 200; MSet 2 20; MRebind (Some 3) (Some 8); MAdd [2]; MMpe 1 200;
+            MAdd [1]; MRun 0; MMpe 0 401; MSaveLoad; MSet 0 11; MRollback; MRun 0; MAdd [0;1]; MRun 0] in
+  (forall j y, nth_error heap j = Some y -> fresh_inst y) /\
+  mtrace h (new_mstate 0 16 heap) =
+    [None; Some ValueE; None; None; None; None; None; None; None; None; None; None; None; None; None; Some KeyE; None; None] /\
+  m_dict (mexec h (new_mstate 0 16 heap)) = [(0,1)] /\
+  m_heap (mexec h (new_mstate 0 16 heap)) =
+    [mkInst 0 1 (Some 11) (Some 0) (Some 16) (Some 16) (Some (Run 1 10 0 16)) None;
+     mkInst 0 4 (Some 41) (Some 0) (Some 16) (Some 16) (Some (Run 4 41 0 16)) None;
+     mkInst 1 2 (Some 20) (Some 3) (Some 8) (Some 8) (Some (Run 2 21 0 16)) (Some (Extract2 (Run 2 21 0 16) 20 (Some 3) (Some 8) 200))] /\
+  (* a setup without fs: the add raises TypeError, the first instance is half re-bound (data new, fs None, dt old), its run gates *)
+  mtrace [MAdd [0]; MRun 0; MRebind (Some 0) None; MAdd [0;1]; MRun 0] (new_mstate 0 16 heap) = [None; None; None; Some TypeE; Some ValueE] /\
+  nth_error (m_heap (mexec [MAdd [0]; MRun 0; MRebind (Some 5) None; MAdd [0;1]; MRun 0] (new_mstate 0 16 heap))) 0 =
+    Some (mkInst 0 1 (Some 10) (Some 5) None (Some 16) (Some (Run 1 10 0 16)) None).
+Proof.
+  cbn zeta. split.
+  - intros [|[|[|j]]] y H; cbn in H; try (destruct j; discriminate); injection H as <-; repeat split.
+  - vm_compute. repeat split; reflexivity.
+Qed.
